@@ -5,6 +5,9 @@ CONSTANTS
   ExIds = {1, 2}
   Handlers = {1, 2}
   MaxPkts = 3
+  MaxOwn = 0
+  OwnKeys <- Own11
+  RoleBlind = FALSE
   Policies = {"reply", "hold", "relDrop"}
 VIEW view
 INVARIANTS RightExchangeOnly OpensOnlyIfAllowed
